@@ -34,6 +34,16 @@ def default_workers():
 
 def _child(fn, jobs, counter, wfd, per_job_limit, init):
     try:
+        # LAPACK/Fortran runtime chatter (xerbla) and faulthandler dumps go to a per-child log
+        try:
+            logdir = os.environ.get("VERIF_LOGDIR") or os.path.join(os.path.dirname(os.path.dirname(os.path.abspath(__file__))), "logs")
+            os.makedirs(logdir, exist_ok=True)
+            fd = os.open(os.path.join(logdir, f"child-{os.getpid()}.log"), os.O_WRONLY | os.O_CREAT | os.O_TRUNC, 0o644)
+            os.dup2(fd, 2)
+            os.dup2(fd, 1)
+            os.close(fd)
+        except OSError:
+            pass
         if init is not None:
             init()
         out = os.fdopen(wfd, "wb", buffering=0)
